@@ -46,19 +46,21 @@ type PeerSpec struct {
 }
 
 type Scenario struct {
-	Index     int        `json:"index"`
-	Tier      string     `json:"tier"`
-	Class     string     `json:"class"`
-	Chain     ChainSpec  `json:"chain"`
-	First     int64      `json:"first_height"`
-	Last      int64      `json:"last_height"` // last generated canonical height
-	NodeStart int64      `json:"node_start"`  // node has applied the canonical blocks up to here itself (0: genesis)
-	Peers     []PeerSpec `json:"peers"`
-	SchedSeed int64      `json:"sched_seed"`
-	WindowMs  int        `json:"window_ms"`
-	HoldProb  float64    `json:"hold_prob"`
-	Timeouts  bool       `json:"needs_peer_timeout"`
-	LiarVals  []string   `json:"liar_validators"`
+	Index        int        `json:"index"`
+	Tier         string     `json:"tier"`
+	Class        string     `json:"class"`
+	Version      string     `json:"reactor_version"`
+	Chain        ChainSpec  `json:"chain"`
+	First        int64      `json:"first_height"`
+	Last         int64      `json:"last_height"` // last generated canonical height
+	NodeStart    int64      `json:"node_start"`  // node has applied the canonical blocks up to here itself (0: genesis)
+	Peers        []PeerSpec `json:"peers"`
+	SchedSeed    int64      `json:"sched_seed"`
+	WindowMs     int        `json:"window_ms"`
+	HoldProb     float64    `json:"hold_prob"`
+	MaxPerWindow int        `json:"max_releases_per_window,omitempty"`
+	Timeouts     bool       `json:"needs_peer_timeout"`
+	LiarVals     []string   `json:"liar_validators"`
 }
 
 func (p *PeerSpec) beh(h int64) BehAt {
@@ -79,6 +81,24 @@ func classOf(tier string, idx int) string {
 		return "timeout"
 	}
 	return classPattern[idx%len(classPattern)]
+}
+
+// The deciding target is v0 (indexes below nV0).  In the thorough tier the same peers also drive
+// v1 and v2, judged by the store / execution / hand-over oracles only.
+const (
+	nV0Thorough = 2000
+	nV1Thorough = 300
+	nV2Thorough = 300
+)
+
+func versionOf(idx int) string {
+	switch {
+	case idx < nV0Thorough:
+		return "v0"
+	case idx < nV0Thorough+nV1Thorough:
+		return "v1"
+	}
+	return "v2"
 }
 
 func tipOrdinal(tier string, idx int) int {
@@ -329,7 +349,7 @@ func (w *world) randomBad(r *rand.Rand, h int64, slow bool) BehAt {
 
 func genScenario(c *verdict.Ctx, idx int) (*Scenario, *world) {
 	r := c.Rand("scenario", idx)
-	sc := &Scenario{Index: idx, Tier: c.Tier, Class: classOf(c.Tier, idx)}
+	sc := &Scenario{Index: idx, Tier: c.Tier, Class: classOf(c.Tier, idx), Version: versionOf(idx)}
 	n := 4 + r.Intn(4)
 	if sc.Class == "tip" {
 		n = []int{4, 4, 6, 7}[r.Intn(4)]
@@ -362,6 +382,11 @@ func genScenario(c *verdict.Ctx, idx int) (*Scenario, *world) {
 	sc.SchedSeed = r.Int63()
 	sc.WindowMs = 1 + r.Intn(6)
 	sc.HoldProb = []float64{0, 0.2, 0.5}[r.Intn(3)]
+	if r.Intn(5) == 0 && sc.Class != "timeout" {
+		// slow network: the 1 s hand-over check fires while the sync is still going on
+		sc.WindowMs = 80 + r.Intn(80)
+		sc.MaxPerWindow = 1 + r.Intn(3)
+	}
 	T := w.last
 	lowBase := func() int64 { return w.first }
 	honest := func(name string, height int64) PeerSpec {
